@@ -40,7 +40,7 @@ pub fn run(args: &Args) -> Report {
     if let Some(input) = &args.replay {
         cases.push(Case { text: String::from_utf8_lossy(&unhex(input.split_whitespace().next().unwrap_or("-"))).into_owned(), family: "replay", expect: None });
     } else {
-        let ndocs = if args.thorough { 6000 } else { 500 };
+        let ndocs = if args.thorough { 24000 } else { 500 };
         for d in 0..ndocs {
             let version = [6u8, 6, 6, 5, 4, 3, 2, 1][d % 8];
             let opts = GenOpts { version, deprecated: d % 3 == 0, opt_prob: [20, 45][d % 2], comments: d % 4 == 0, param_comments: d % 4 == 0, ..GenOpts::default() };
